@@ -400,7 +400,7 @@ def render(deck, layout=None, expr_style=None):
     out = []
     msg = lay.message(deck)
     if msg:
-        out.append('message: ' + msg)
+        out.append(getattr(lay, 'message_kw', 'message:') + ' ' + msg)
         out.append('')
     out.append(deck.get('title') or 'generated deck')
     for bi, (kind, cards) in enumerate((('c', cells), ('s', surfs),
